@@ -34,5 +34,10 @@ CLAIMED = {
         "quick: one country per table signature; thorough: all 126. Reference positions come from the same JSON files via an independent merge.",
         "3 C11",
     ),
+    "C07": (
+        "Every registered Bundesbank method object is executed on ten symbolic digits (all 10^10 accounts) and proved equivalent to an independent transcription of the published rule wherever that transcription is certain; the bank-code -> method dispatch is executed for every German bank code of the registry (and the unlisted case) with the method bodies replaced by recording stubs of free verdict; one bank per method is run through IBAN(..., validate_bban=True).",
+        "Reference clauses that could not be stated with certainty (13, 21, 63, 68, 76: see evidence assumptions) are excluded by assumption, shrinking the claim.",
+        "3 C07",
+    ),
 }
 NOT_APPLICABLE = {}
